@@ -337,3 +337,70 @@ theorem removeLoop_writes (opIds : List Iri) (t : Iri) (s : Option J) :
 
 end
 end AV.Props.C16
+
+namespace AV.Props.C16
+open AV Prog Pub Val
+
+section
+variable (F : TFacts)
+
+/-- what Like / Announce write for an owned object: the stored value with the activity id at the front of its
+`likes` / `shares` collection (`bumpCollection` is a pure function of the stored value) -/
+def expectedBump (F : TFacts) (p : String) (id : Iri) (t : J) : J := (valOf (bumpCollection F t p id)).getD t
+
+theorem isPure_bumpCollection (t : J) (p : String) (id : Iri) : isPure (bumpCollection F t p id) = true := by
+  unfold bumpCollection
+  split
+  · rfl
+  · split
+    · rfl
+    · split <;> rfl
+
+/-- **Like / Announce, value level**: for every application, what `likeLoop` hands to `Update` is the value `Get`
+returned with the activity id prepended to the collection -/
+theorem likeLoop_writes (p : String) (id : Iri) (j : J) (s : Option J) :
+    W (expectedBump F p id) s (likeLoop F p id j) := by
+  unfold likeLoop
+  apply W.pure_bind (by cases toId F (elemOf F j) <;> rfl)
+  intro objId
+  show W _ s (Op.lock objId >>= fun _ => Prog.finally_ _ (Op.unlock objId))
+  apply W.locked_body
+  intro s
+  apply W.neutral_bind (owns_neutral objId)
+  intro owns
+  cases owns with
+  | false => trivial
+  | true =>
+    simp only [Bool.not_true, Bool.false_eq_true, if_false]
+    apply W.get_bind
+    · intro tp
+      show W _ (some tp) (bumpCollection F tp p id >>= fun t => Op.update t)
+      apply W.pure_bind' (isPure_bumpCollection F tp p id)
+      intro t' ht
+      apply W.update
+      unfold expectedBump
+      rw [ht]; rfl
+    · trivial
+
+/-- … where the collection is the object's `likes` / `shares` (a fresh Collection when it had none, or only an IRI), and
+the activity id goes in front of whichever of `items` / `orderedItems` it has -/
+theorem bumpCollection_spec (t : J) (p : String) (id : Iri) (t' : J) (h : valOf (bumpCollection F t p id) = some t') :
+    ∃ key, (key = "items" ∨ key = "orderedItems") ∧ has F (bumpCol F t p) key = true ∧
+      t' = t.set p (setList (bumpCol F t p) key (iriJ id :: (rawList (bumpCol F t p) key).getD [])) := by
+  unfold bumpCollection at h
+  split at h
+  · cases h
+  · split at h
+    · rename_i hi
+      refine ⟨"items", Or.inl rfl, hi, ?_⟩
+      have : some (t.set p (setList (bumpCol F t p) "items" (iriJ id :: (rawList (bumpCol F t p) "items").getD []))) = some t' := h
+      cases this; rfl
+    · split at h
+      · rename_i ho
+        refine ⟨"orderedItems", Or.inr rfl, ho, ?_⟩
+        have : some (t.set p (setList (bumpCol F t p) "orderedItems" (iriJ id :: (rawList (bumpCol F t p) "orderedItems").getD []))) = some t' := h
+        cases this; rfl
+      · cases h
+
+end
+end AV.Props.C16
